@@ -62,6 +62,7 @@ type Knobs struct {
 type groupGen struct {
 	rng      *rand.Rand
 	rx       *rand.Rand // second per-group stream, for object shapes added late (keeps the first stream's histories)
+	ry       *rand.Rand // third stream: fields that neither escalator, the oracle nor the simulated world read (inert)
 	shape    sim.PodShape
 	memBound bool
 }
@@ -243,7 +244,7 @@ func NewRun(k Knobs, seed int64, rep *monitor.Report, caseID string, trace io.Wr
 		if gi == altGroup {
 			gs = altSeed
 		}
-		gg := &groupGen{rng: rand.New(rand.NewSource(gs)), rx: rand.New(rand.NewSource(gs ^ 0x5ca1ab1e))}
+		gg := &groupGen{rng: rand.New(rand.NewSource(gs)), rx: rand.New(rand.NewSource(gs ^ 0x5ca1ab1e)), ry: rand.New(rand.NewSource(gs ^ 0x1e57ab1e))}
 		gg.shape = pick(gg.rng, sim.ShapeSelector, sim.ShapeAffinity, sim.ShapeAffinityExclude)
 		gg.memBound = gg.rng.Intn(3) == 0
 		run.G = append(run.G, gg)
@@ -790,6 +791,36 @@ func (run *Run) Step(s int) *monitor.ScanCtx {
 					x.Status.Conditions = []v1.NodeCondition{{Type: v1.NodeReady, Status: st}}
 				})
 				run.tracef("  op g%d node %s Ready=%s", gi, n, st)
+			}
+		}
+		if rx := run.G[gi].ry; rx.Intn(15) == 0 {
+			// a Node object that is being deleted but held by a finalizer stays listed, with a deletion timestamp
+			// (escalator does not look at it); a bound pod gets the mirror-pod annotation (not the static-pod one)
+			if names := env.GroupNodeNames(gi); len(names) > 0 {
+				n := names[rx.Intn(len(names))]
+				if rx.Intn(2) == 0 {
+					env.K.MutateNode(n, func(x *v1.Node) {
+						if x.DeletionTimestamp == nil {
+							t := metav1.NewTime(time.Now())
+							x.DeletionTimestamp = &t
+							x.Finalizers = []string{"example.com/hold"}
+						} else {
+							x.DeletionTimestamp, x.Finalizers = nil, nil
+						}
+					})
+					run.tracef("  op g%d node %s deletion timestamp toggled", gi, n)
+				} else {
+					for _, pk := range env.GroupPodKeys(gi) {
+						if p := env.K.Pods[pk]; p.Spec.NodeName == n {
+							if p.Annotations == nil {
+								p.Annotations = map[string]string{}
+							}
+							p.Annotations["kubernetes.io/config.mirror"] = "abc123"
+							run.tracef("  op g%d pod %s gets the mirror annotation", gi, pk)
+							break
+						}
+					}
+				}
 			}
 		}
 		if r.Float64() < 0.7 {
